@@ -243,6 +243,42 @@ def conformance(src, g, rt) -> list:
     return bad
 
 
+PURITY_EXAMPLES = [
+    # (source of a small table of classes, method, expected: may its answers be remembered?)
+    ("class T:\n    S = []\n    def __init__(self, v, c):\n        self.v = v\n    @classmethod\n    def get(cls, e, c):\n"
+     "        out = []\n        for t in cls.S:\n            out.append(t)\n        return cls(out, c), e[1:]\n", 'get', True),
+    ("class T:\n    LOG = []\n    def __init__(self, v, c):\n        self.v = v\n    @classmethod\n    def get(cls, e, c):\n"
+     "        c.seen = True\n        return cls(e, c), e\n", 'get', False),                       # stores into an argument
+    ("class T:\n    def __init__(self, v, c):\n        self.v = v\n        c.count = 1\n    @classmethod\n    def get(cls, e, c):\n"
+     "        return cls(e, c), e\n", 'get', False),                                                   # the constructor stores into an argument
+    ("class T:\n    def __init__(self, v, c):\n        self.v = v\n    @classmethod\n    def get(cls, e, c):\n"
+     "        e.pop(0)\n        return cls(e, c), e\n", 'get', False),                              # consumes its argument in place
+    ("class T:\n    def __init__(self, v, c):\n        self.v = v\n    @classmethod\n    def get(cls, e, c):\n"
+     "        global N\n        N = 1\n        return cls(e, c), e\n", 'get', False),
+    ("class T:\n    def __init__(self, v, c):\n        self.v = v\n    @classmethod\n    def get(cls, e, c):\n"
+     "        return helper(e), e\n", 'get', False),                                                   # calls something unknown
+    ("class T:\n    _P = False\n    def __init__(self, v, c):\n        self.v = v\n    @classmethod\n    def sets(cls):\n"
+     "        if not cls._P:\n            cls._P = True\n        return []\n    @classmethod\n    def get(cls, e, c):\n"
+     "        return cls(cls.sets(), c), e\n", 'get', True),                                          # lazy class state: counted at run time
+]
+
+
+def purity_examples() -> list:
+    """the analysis that allows the evaluator to remember the answers of parser methods, on small examples with known verdicts"""
+    import ast
+    from .finite import memoizable
+    bad = []
+    for text, name, want in PURITY_EXAMPLES:
+        tree = ast.parse(text)
+        table = {c.name: {'mro': [c.name], 'attrs': {}, 'methods': {f.name: f for f in c.body if isinstance(f, ast.FunctionDef)}}
+                 for c in tree.body if isinstance(c, ast.ClassDef)}
+        memo, _ = memoizable(table, {name})
+        got = bool(memo)
+        if got != want:
+            bad.append(f'purity analysis: expected {"pure" if want else "impure"} for {text.splitlines()[-2].strip()!r}..., got the opposite')
+    return bad
+
+
 def thorough(run, prop: str):
     """called by main for --tier thorough after the rules of the property ran on the current tree"""
     info = {}
@@ -277,6 +313,10 @@ def thorough(run, prop: str):
         info['model_conformance'] = {'mismatches': bad, 'note': 'dynamic, separate process, validates the extractor only'}
         for b in bad:
             run.error('conformance', b)
+        pure_bad = purity_examples()
+        info['purity_examples'] = {'examples': len(PURITY_EXAMPLES), 'mismatches': pure_bad}
+        for b in pure_bad:
+            run.error('selftest', b)
     except Exception as e:      # the conformance step must never look like a violation
         info['model_conformance'] = {'error': f'{type(e).__name__}: {e}'}
         run.error('conformance', f'conformance step failed: {type(e).__name__}: {e}')
